@@ -122,6 +122,31 @@ theorem concat_axis0_den {α : Type} (frames : List (List (List α))) :
     (frames.flatten).flatten = (frames.map List.flatten).flatten := by
   rw [List.flatten_flatten]
 
+theorem eq_map_range {α : Type} (n : Nat) (xs : List α) (f : Nat → α) (hlen : xs.length = n)
+    (h : ∀ p, p < n → xs[p]? = some (f p)) : xs = (List.range n).map f := by
+  apply List.ext_getElem?
+  intro p
+  by_cases hp : p < n
+  · rw [h p hp, List.getElem?_map, List.getElem?_range hp]; rfl
+  · rw [List.getElem?_eq_none (by omega), List.getElem?_eq_none (by simp; omega)]
+
+/-- **partition-wise join = global join given co-location** (frame level): if partition `p` of both frames
+    holds exactly the rows whose key is in class `p` — hash bucket after a shuffle, or interval of the aligned
+    divisions for an index join — then joining the partitions pairwise and concatenating yields the global join
+    as a multiset, for every left-driven join (inner, left, leftsemi). -/
+theorem colocated_join_eq_global (g : Row → List Row → List Out) (hg : ∀ l ms o, o ∈ g l ms → o.1 = l.1)
+    (c : Nat → Nat) (n : Nat) (hc : ∀ k, c k < n) (L R : List Row) (Ls Rs : List (List Row))
+    (hLl : Ls.length = n) (hRl : Rs.length = n)
+    (hL : ∀ p, p < n → Ls[p]? = some (partBy c p L)) (hR : ∀ p, p < n → Rs[p]? = some (partBy c p R)) :
+    (List.zipWith (joinWith g) Ls Rs).flatten.Perm (joinWith g L R) := by
+  rw [eq_map_range n Ls _ hLl hL, eq_map_range n Rs _ hRl hR, List.zipWith_map, List.zipWith_self,
+    ← List.flatMap_def]
+  exact classJoin_joinWith_perm g hg c n hc L R
+
+
+/-- the index join of two frames repartitioned to common divisions `d` is the instance `c = interval index`: -/
+example : partBy (fun k => if k < 5 then 0 else 1) 1 [(2, 0), (7, 1), (5, 2)] = [(7, 1), (5, 2)] := by decide
+
 /-! non-vacuity -/
 example : inner [(1, 0), (2, 1), (1, 2)] [(1, 0), (3, 1), (1, 2)] =
     [(1, some 0, some 0), (1, some 0, some 2), (1, some 2, some 0), (1, some 2, some 2)] := by decide
